@@ -28,6 +28,13 @@ CHECKS["C11"] = (
     "DESIGN.md section 4, C11",
 )
 
+CHECKS["C03"] = (
+    "property-based testing: exhaustive enumeration of the 2^10 StateBuilder input masks with injected invalid values against a reference decision table; seed-independent success lattice over the Gross-Sadowski collections; proptest-generated T-p constructions with an independent p(rho) scan + bisection root oracle (lowest Gibbs energy / requested branch); round trips for (p,h),(p,s),(T,h),(T,s),(V,u) targets",
+    "Every run enumerates all 1024 presence masks of the ten optional builder inputs for two models x three caloric kinds with valid values and with every single injected NaN / inf / negative / wrong-length value and compares Ok/Err and the echoed fields with a reference table re-implemented from the documentation of State::new / new_full; constructs 239 400 (T,p,hint) states over all 133 records of gross2001/2002/2005/2006 (each must succeed and meet the pressure; un-hinted result must be the lower-Gibbs root); and runs generated T-p and iterative-target constructions over all 13 model families. Exploration: the success clause over the continuum is decided on the lattice plus sampled points.",
+    "Trusted: State::new_nvt and the pressure / Gibbs getters used by the harness-side scan (validated by C01/C02). Zero values and invalid secondary inputs (rho, x, p, h, s, u, T0) are not asserted either way (the property is silent); multi-loop isotherms and roots above max_density are excluded from the branch / Gibbs clauses. Tolerances: pressure 1e-7 rel + 1e-10 abs (reduced units), caloric targets 100 x the Newton wrapper's own step bound, echo 5e-14.",
+    "DESIGN.md section 4, C03",
+)
+
 NOT_YET = {}
 
 def main():
